@@ -700,6 +700,65 @@ func c09Framings(c *core.Ctx, sp *saml.ServiceProvider, idp *saml.IdentityProvid
 		})
 	}
 
+	// the text-level variants of base64 (unpadded, cut short by 1-4 characters, URL-safe alphabet, wrapped, blanks around, NUL inside) on
+	// every other consumer of a base64 parameter: the logout validators (form and redirect) and the IdP's two request encodings
+	textVariants := func(std string) map[string]string {
+		raw, _ := base64.StdEncoding.DecodeString(std)
+		return map[string]string{"unpadded": strings.TrimRight(std, "="), "urlsafe": base64.URLEncoding.EncodeToString(raw), "trunc-1": std[:len(std)-1], "trunc-2": std[:len(std)-2], "trunc-3": std[:len(std)-3],
+			"trunc-5": std[:len(std)-5], "one-char": std[:1], "two-chars": std[:2], "three-chars": std[:3], "newlines76": wrap76(std), "leading-space": " " + std, "trailing-newline": std + "\n",
+			"nul-inside": std[:10] + "\x00" + std[10:], "padding-only": "==", "extra-padding": std + "=="}
+	}
+	reqDoc := authnRequestXML(samlgen.S(samlgen.SPEntity), samlgen.S(samlgen.IDPSSO), samlgen.S("2.0"), samlgen.S(samlgen.TS(samlgen.T0)), nil, nil, "id-req-framing")
+	for name, v := range textVariants(b64(lrDoc)) {
+		name, v := name, v
+		c.Case("framing/logout-form-base64-text/"+name, func(t *core.T) {
+			t.NonTrivial()
+			anyContract(t, "ValidateLogoutResponseForm", "base64-text", func() (bool, error) { e := sp.ValidateLogoutResponseForm(v); return e == nil, e })
+			anyContract(t, "ValidateLogoutResponseRequest", "base64-text", func() (bool, error) {
+				r := httptest.NewRequest("POST", samlgen.SPSlo, strings.NewReader(url.Values{"SAMLResponse": {v}}.Encode()))
+				r.Header.Set("Content-Type", "application/x-www-form-urlencoded")
+				e := sp.ValidateLogoutResponseRequest(r)
+				return e == nil, e
+			})
+		})
+	}
+	for name, v := range textVariants(b64(deflate(lrDoc))) {
+		name, v := name, v
+		c.Case("framing/logout-redirect-base64-text/"+name, func(t *core.T) {
+			t.NonTrivial()
+			anyContract(t, "ValidateLogoutResponseRedirect", "base64-text", func() (bool, error) { e := sp.ValidateLogoutResponseRedirect(v); return e == nil, e })
+		})
+	}
+	for name, v := range textVariants(b64(reqDoc)) {
+		name, v := name, v
+		c.Case("framing/idp-post-base64-text/"+name, func(t *core.T) {
+			t.NonTrivial()
+			anyContract(t, "NewIdpAuthnRequest-POST", "base64-text", func() (bool, error) {
+				r := httptest.NewRequest("POST", samlgen.IDPSSO, strings.NewReader(url.Values{"SAMLRequest": {v}}.Encode()))
+				r.Header.Set("Content-Type", "application/x-www-form-urlencoded")
+				req, err := saml.NewIdpAuthnRequest(idp, r)
+				if err == nil {
+					err = req.Validate()
+				}
+				return err == nil, err
+			})
+		})
+	}
+	for name, v := range textVariants(b64(deflate(reqDoc))) {
+		name, v := name, v
+		c.Case("framing/idp-get-base64-text/"+name, func(t *core.T) {
+			t.NonTrivial()
+			anyContract(t, "NewIdpAuthnRequest-GET", "base64-text", func() (bool, error) {
+				r := httptest.NewRequest("GET", samlgen.IDPSSO+"?"+url.Values{"SAMLRequest": {v}}.Encode(), nil)
+				req, err := saml.NewIdpAuthnRequest(idp, r)
+				if err == nil {
+					err = req.Validate()
+				}
+				return err == nil, err
+			})
+		})
+	}
+
 	// inflate ladder on both bounded-inflate consumers
 	c.Group("inflate-ladder")
 	ar, _ := sp.MakeAuthenticationRequest(samlgen.IDPSSO, saml.HTTPRedirectBinding, saml.HTTPPostBinding)
